@@ -908,6 +908,9 @@ func (x *Exec) assign(lhs ast.Expr, v Val, st *State) *State {
 			x.c.globalWrites = append(x.c.globalWrites, gv.Name())
 			x.c.globalWritePos = n.Pos()
 		}
+		if _, isPt := v.(Pt); !isPt {
+			x.havocAddrAliases(st, obj)
+		}
 		st.vars[obj] = v
 		return st
 	case *ast.IndexExpr:
@@ -1605,58 +1608,43 @@ func (x *Exec) havocAliases(st *State, written Val, target ast.Expr, keepBelow s
 	}
 }
 
-// havocPtrAliases: after a store through a value-mode pointer to T, the pointee of every other pointer to T that may
-// equal it (alias.go: same may-share class) is arbitrary.
+// havocPtrAliases: after a store through a value-mode pointer to T, the pointee of every other pointer that may point to
+// the same storage (alias.go: same may-share class) is arbitrary, and so is every variable of the class that is not a
+// pointer (p := &x, p := &q.f: the variable holds the storage pointed to).
 func (x *Exec) havocPtrAliases(st *State, T types.Type, except types.Object) {
-	objs := x.sharers(st, except)
-	for _, o := range objs {
-		changed := false
-		var rec func(v Val) Val
-		rec = func(v Val) Val {
-			switch n := v.(type) {
-			case Pt:
-				if types.Identical(n.T, T) {
-					changed = true
-					return Pt{n.Nil, x.keepObjs(n.Elem, x.c.freshVal("alias."+o.Name(), n.T, nil), "alias."+o.Name()), n.T}
-				}
-				return Pt{n.Nil, rec(n.Elem), n.T}
-			case St:
-				nf := make([]Val, len(n.F))
-				for i := range n.F {
-					nf[i] = rec(n.F[i])
-				}
-				return St{nf, n.T}
+	for _, o := range x.sharers(st, except) {
+		old := st.vars[o]
+		switch n := old.(type) {
+		case Pt:
+			st.vars[o] = Pt{n.Nil, x.keepObjs(n.Elem, x.c.freshVal("alias."+o.Name(), n.T, nil), "alias."+o.Name()), n.T}
+		case Obj, Fn, nil:
+			continue
+		default:
+			if k, _ := classify(o.Type()); k == kObj || k == kRef {
+				continue
 			}
-			return v
+			if !x.c.alias.addr[o] {
+				continue // its address is never taken: no pointer points into it
+			}
+			st.vars[o] = x.keepObjs(old, x.c.freshVal("alias."+o.Name(), o.Type(), nil), "alias."+o.Name())
 		}
-		nv := rec(st.vars[o])
-		if changed {
-			st.vars[o] = nv
-			x.c.notes = append(x.c.notes, "store through a pointer that "+o.Name()+" may equal: "+o.Name()+"'s pointee is arbitrary afterwards")
-		}
+		x.c.notes = append(x.c.notes, "store through a pointer that may point into "+o.Name()+": "+o.Name()+" is arbitrary afterwards")
 	}
 }
 
-// throughHeap: the storage expression reaches its storage through a field of a heap object.
-func (x *Exec) throughHeap(e ast.Expr) bool {
-	for {
-		switch n := ast.Unparen(e).(type) {
-		case *ast.IndexExpr:
-			e = n.X
-		case *ast.SliceExpr:
-			e = n.X
-		case *ast.StarExpr:
-			e = n.X
-		case *ast.SelectorExpr:
-			if sel := x.info.Selections[n]; sel == nil {
-				return false
-			}
-			if k, _ := classify(x.typeOf(n.X)); k == kRef {
-				return true
-			}
-			e = n.X
-		default:
-			return false
+// havocAddrAliases: after an assignment to (part of) variable root, the pointee of every value-mode pointer that may point
+// into it (p := &root, p := &root.f) is arbitrary.
+func (x *Exec) havocAddrAliases(st *State, root types.Object) {
+	if root == nil {
+		return
+	}
+	if !x.c.alias.addr[root] {
+		return // its address is never taken: no pointer points into it
+	}
+	for _, o := range x.sharers(st, root) {
+		if n, ok := st.vars[o].(Pt); ok {
+			st.vars[o] = Pt{n.Nil, x.keepObjs(n.Elem, x.c.freshVal("alias."+o.Name(), n.T, nil), "alias."+o.Name()), n.T}
+			x.c.notes = append(x.c.notes, "assignment to "+root.Name()+", which "+o.Name()+" may point into: "+o.Name()+"'s pointee is arbitrary afterwards")
 		}
 	}
 }
@@ -1811,4 +1799,28 @@ func (x *Exec) staleExact(v Val, terms map[string]bool, hint, keepBelow string) 
 	}
 	out := rec(v, false)
 	return out, changed
+}
+
+// throughHeap: the storage expression reaches its storage through a field of a heap object.
+func (x *Exec) throughHeap(e ast.Expr) bool {
+	for {
+		switch n := ast.Unparen(e).(type) {
+		case *ast.IndexExpr:
+			e = n.X
+		case *ast.SliceExpr:
+			e = n.X
+		case *ast.StarExpr:
+			e = n.X
+		case *ast.SelectorExpr:
+			if sel := x.info.Selections[n]; sel == nil {
+				return false
+			}
+			if k, _ := classify(x.typeOf(n.X)); k == kRef {
+				return true
+			}
+			e = n.X
+		default:
+			return false
+		}
+	}
 }
